@@ -8,6 +8,7 @@ import Rl4co.Core.Basic
 import Rl4co.Core.Tour
 import Rl4co.Core.Sort
 import Rl4co.Generated.Params
+import Rl4co.Env.TspfamBase
 
 namespace Rl4co.Tsp
 
@@ -40,8 +41,10 @@ def stepWith (flag : Bool) (i : Inst) (s : State) (a : Nat) : State :=
     avail := avail
     done := Params.tspDoneCmp.evalNat (cnt i.n avail) 0 }
 
-/-- `td["i"].all() == 0` over the rows of a batch: true iff NOT every row has `i ≠ 0`. -/
-def firstFlag (rows : List State) : Bool := (rows.all (fun s => s.i != 0)) == false
+/-- `td["i"].all() == 0` over the rows of a batch (`.all()` read as 0/1, compared with the extracted
+operator): true iff NOT every row has `i ≠ 0`. -/
+def firstFlag (rows : List State) : Bool :=
+  Params.tspFirstStepCmp.evalNat (if rows.all (fun s => s.i != 0) then 1 else 0) 0
 
 /-- solo step = the batched code on a batch of one row -/
 def step (i : Inst) (s : State) (a : Nat) : State := stepWith (firstFlag [s]) i s a
@@ -58,13 +61,19 @@ def env : Env Inst State where
   step := step
   done _ s := s.done
 
+/-- `torch.roll(ordered_locs, k, dims=-2)` of `get_tour_length` with the extracted shift `k`.  If the
+roll did not name the step dimension it would not be a per-row operation at all (it would run across batch
+rows); the per-instance model then has nothing sensible to say and leaves the list unrolled. -/
+def tourNext (as : List Nat) : List Nat :=
+  if Params.tourRollAlongSteps then Tspfam.rollInt Params.tourRollShift as else as
+
 /-- `_get_reward`: `-get_tour_length(locs[actions])`, i.e. `-Σ_k |x[roll(a,-1)[k]] - x[a[k]]|`
 (`get_distance(ordered_locs_next, ordered_locs)`). -/
 def reward (i : Inst) (as : List Nat) : Int :=
-  - (List.zipWith (fun nxt c => i.D nxt c) (roll1 as) as).sum
+  - (List.zipWith (fun nxt c => i.D nxt c) (tourNext as) as).sum
 
 /-- `check_solution_validity`: `arange(actions.size(1)) == actions.sort(1)[0]` (True = no assertion
 raised).  The expected node set is derived from the WIDTH OF THE ACTION TENSOR, not from the instance. -/
-def check (_ : Inst) (as : List Nat) : Bool := sortedIsRange as.length as
+def check (_ : Inst) (as : List Nat) : Bool := Tspfam.permTest Params.tspCheckCmp as.length as
 
 end Rl4co.Tsp
